@@ -121,7 +121,8 @@ def run(ctx):
         return c is not None and (c in STAGES or c in stage_reach)
     handlers = []
     for n, f in prog.fns.items():
-        if f.defkind == "Closure" and n.startswith("bin::") and any(is_asm_call(c) for b, t, c in f.calls()):
+        if f.defkind == "Closure" and n.startswith("bin::") and any(is_asm_call(c) for b, t, c in f.calls()) \
+                and ("lace::parser::AsmParser::new" in ctx.cg.reachable([n])):
             handlers.append(f)
     ctx.need(handlers, "watch handler closure calling the assembler")
     for f in handlers:
